@@ -93,6 +93,16 @@ PLAN = {
             {"run": "TestC07_Known"},
         ],
     },
+    "C10": {
+        "quick": [
+            {"run": "TestC10_Totality", "checks": 4000},
+            {"run": "TestC10_Missing|TestC10_Replay"},
+        ],
+        "thorough": [
+            {"run": "TestC10_Totality", "checks": 100000, "shards": 16, "timeout": 3000},
+            {"run": "TestC10_Missing|TestC10_Replay"},
+        ],
+    },
     "C12": {
         "quick": [
             {"run": "TestC12_Model", "checks": 4000},
